@@ -66,7 +66,8 @@ def run_selection(ctx, case, faults=False):
     query = ['q_only_gene'] + [g for g, f in zip(genes, inq) if f]
     target = case['target'] if 'target' in case \
         else 1 + ctx.choice('n_per_utility-1', 2)
-    nproc = 1 + ctx.choice('n_processors-1', 3)
+    nproc = case['nproc'] if 'nproc' in case \
+        else 1 + ctx.choice('n_processors-1', 3)
     cutoff = [1000000, 0, 1, -1][ctx.choice('behemoth_cutoff', 4)]
     scratch = os.path.join(st['root'], 'scratch')
     for n in os.listdir(scratch):
